@@ -256,18 +256,22 @@ def run_property(prop: Prop, tier: str, seed: int, new_world, timeout_quick=30.0
         bounded = prop.bounded(tier)
     except Exception as e:
         status["undecided"].append(f"bounded stand-in crashed: {type(e).__name__}: {e}")
+    # known findings attached to a bounded stand-in: the stand-in itself excludes exactly the recorded inputs
+    # (see the property's bounded()); here the recorded witness is replayed and reported while it still fails
+    for f in known:
+        if f.get("status") == "known" and f["property"] == prop.id and any(p.startswith("bounded/") for p in f["obligations"]) and f["id"] not in seen_f:
+            r = prop.witness_replay(f)
+            if r is None or r.get("failed"):
+                print(f"KNOWN-FINDING: property={prop.id} {f['what']}", file=out)
+                status["known"].append({"id": f["id"], "what": f["what"], "witness_replay": r})
+                seen_f[f["id"]] = f
     for b in bounded:
         if b.get("failures"):
             fn = os.path.join(replay_dir, "bounded_" + hashlib.sha1(b["name"].encode()).hexdigest()[:8] + ".json")
-            known_b = [f for f in known if f.get("status") == "known" and f["property"] == prop.id and any(fnmatch.fnmatch("bounded/" + b["name"], p) for p in f["obligations"])]
-            if known_b:
-                if known_b[0]["id"] not in seen_f:
-                    print(f"KNOWN-FINDING: property={prop.id} {known_b[0]['what']}", file=out)
-                    status["known"].append({"id": known_b[0]["id"], "what": known_b[0]["what"]})
-                continue
             with open(fn, "w") as fh:
                 json.dump(b, fh, indent=1, default=str)
             vio_lines.append(f"VIOLATION property={prop.id} replay={fn}")
+            print(f"  failed bounded stand-in: {b['name']}", file=out)
 
     n_ob = len(obligations) + len(static)
     n_dis = discharged + sum(1 for s in static if s["ok"] or s.get("known"))
